@@ -47,6 +47,9 @@ var props = map[string]propCfg{
 	"C18": {Pkg: "checks/c18", Level: "exploration", Passes: []pass{
 		{Name: "race", Race: true, Shards: 16, TimeoutS: 900},
 	}, RaceFiles: []string{`^rpc/plugins/loadbalance/`}},
+	"C15": {Pkg: "checks/c15", Level: "exploration", Passes: []pass{
+		{Name: "race", Race: true, Shards: 16, TimeoutS: 900},
+	}, RaceFiles: []string{`^rpc/core/plugin_manager`, `^rpc/core/invoke_manager`, `^rpc/core/io_manager`}},
 	"C14": {Pkg: "checks/c14", Level: "exploration", Passes: []pass{
 		{Name: "race", Race: true, Shards: 48, ShardsThorough: 256, TimeoutS: 900, TZ: []string{"UTC"}},
 		{Name: "plain", Shards: 48, ShardsThorough: 256, TimeoutS: 600, TZ: []string{"UTC"}},
